@@ -38,14 +38,17 @@ void Parser::parseTranslationUnit(TranslationUnitSyntax*& unit)
 
     while (true) {
         DeclarationSyntax* decl = nullptr;
+        auto tkIdx_AtDecl = curTkIdx_;
         switch (peek().kind()) {
             case SyntaxKind::EndOfFile:
                 return;
 
             case SyntaxKind::Keyword_ExtGNU___extension__: {
                 auto extKwTkIdx = consume();
-                if (!parseExternalDeclaration(decl))
+                if (!parseExternalDeclaration(decl)) {
+                    noteFailedParse(tkIdx_AtDecl);
                     break;
+                }
                 if (decl)
                     decl->extKwTkIdx_ = extKwTkIdx;
                 break;
@@ -54,6 +57,7 @@ void Parser::parseTranslationUnit(TranslationUnitSyntax*& unit)
             default:
                 if (parseExternalDeclaration(decl))
                     break;
+                noteFailedParse(tkIdx_AtDecl);
                 ignoreDeclarationOrDefinition();
                 continue;
         }
@@ -1597,6 +1601,7 @@ bool Parser::parseTagTypeSpecifier_AtFirst(
             default: {
                 auto tkIdx_AtMember = curTkIdx_;
                 if (!((this)->*(parseMember))(membDecl)) {
+                    noteFailedParse(tkIdx_AtMember);
                     ignoreMemberDeclaration();
                     if (peek().kind() == SyntaxKind::EndOfFile)
                         return false;
